@@ -389,6 +389,63 @@ def exclusion_expr(fs):
     return " && ".join(parts) if parts else "1"
 
 
+# ---------------------------------------------------------------------------------- C18 symbol scan
+def run_symscan(build, pid, job, rec):
+    """Completeness guard of C18: every static-lifetime, non-const object defined under /repo (read from the goto
+    symbol table of the freshly compiled library) must be in the list the solver jobs snapshot, and no goto
+    instruction of a library function may assign to it (function-local statics cannot be named by a harness)."""
+    t0 = time.time()
+    try:
+        objs = [build.unit(u, "ndebug", False) for u in UNITS]
+    except Broken as e:
+        rec.update(status="broken", reason=str(e))
+        return rec
+    allgb = os.path.join(build.scratch, "symscan_all.gb")
+    r = sh(["goto-cc", "-o", allgb] + objs)
+    if r.returncode != 0:
+        rec.update(status="broken", reason="link for symscan failed: " + r.stdout[-500:])
+        return rec
+    st = sh(["goto-instrument", "--show-symbol-table", allgb]).stdout
+    mutable = {}
+    for blk in st.split("\n\n"):
+        f = dict((ln.split(":", 1)[0].rstrip(". "), ln.split(":", 1)[1].strip()) for ln in blk.splitlines() if re.match(r"^[A-Z][A-Za-z ]+\.*:", ln))
+        flags = f.get("Flags", "")
+        loc = f.get("Location", "")
+        if "static_lifetime" not in flags or "lvalue" not in flags or REPO not in loc:
+            continue
+        ty = f.get("Type", "")
+        if ty.startswith("const ") or "(" in ty.split("[")[0] and ")" in ty and "*" not in ty.split("(")[0]:
+            continue
+        mutable[f.get("Symbol", "?")] = {"type": ty, "location": loc.replace("file ", "")}
+    known = set(job.get("known_statics", []))
+    gf = sh(["goto-instrument", "--show-goto-functions", allgb]).stdout
+    writes = []
+    cur = None
+    for ln in gf.splitlines():
+        m = re.match(r"^(\S+) /\* (\S+) \*/$", ln)
+        if m:
+            cur = m.group(2)
+            continue
+        m = re.match(r"^\s+(?:// \d+ .*)?$", ln)
+        m = re.match(r"^\s+ASSIGN (.+?) := ", ln)
+        if m and cur and not cur.startswith("__CPROVER"):
+            lhs = m.group(1)
+            root = re.match(r"[\(\*&\s]*([A-Za-z_][\w:$]*)", lhs)
+            if root and root.group(1) in mutable:
+                writes.append({"function": cur, "lhs": lhs, "object": root.group(1)})
+    new = sorted(set(mutable) - known)
+    rec.update(wall_s=round(time.time() - t0, 2), n_props=len(mutable), stats={"mutable_statics": len(mutable), "writes": len(writes)},
+               assertions=["%s : %s @ %s" % (k, v["type"], v["location"]) for k, v in sorted(mutable.items())])
+    if writes or new:
+        rp = os.path.join(VERIF, "replays", "%s-symscan-%s.json" % (pid, hashlib.md5(repr((writes, new)).encode()).hexdigest()[:8]))
+        json.dump({"property": pid, "job": job, "inputs": {}, "failed": ["library-owned mutable static object(s): written=%s new=%s" % (writes[:5], new)],
+                   "writes": writes, "new_mutable_statics": {k: mutable[k] for k in new}, "how": "python3 run_check.py C18 --only symscan (re-runs the scan on /repo's current tree)"}, open(rp, "w"), indent=1)
+        rec.update(status="violation", replay_path=rp, failed=["write to / new mutable static: %s %s" % ([w["object"] + " in " + w["function"] for w in writes[:4]], new)], cex_inputs={})
+        return rec
+    rec.update(status="held")
+    return rec
+
+
 # ---------------------------------------------------------------------------------- one job
 def run_native_test(build, job, rec):
     """translator validation helpers (model vs real libc / real function); never the deciding step."""
@@ -412,6 +469,8 @@ def run_job(build, pid, job, tier_caps, findings):
     timeout = job.get("timeout", tier_caps)
     if job.get("native_test"):
         return run_native_test(build, job, rec)
+    if job.get("symscan"):
+        return run_symscan(build, pid, job, rec)
     excluded = []
     known_lines = []
     got = SLOTS.acquire(slots)
